@@ -96,7 +96,7 @@ PENDING = {
         "searchsorted with n-d v that has empty chunks: out.max(axis=0) fails in concatenate3 (could not broadcast input array)",
     "searchsorted:empty-chunk&v-nd>1:shape": "same mechanism, wrong result shape instead of an exception",
     "searchsorted:zero-length&v-nd>1:shape": "searchsorted with n-d zero-size v returns shape (1, 0) instead of v.shape",
-    # one mechanism for the next seven: unify_chunks/blockwise treat an axis of length <= 1 as broadcastable and rechunk it
+    # one mechanism for the next six: unify_chunks/blockwise treat an axis of length <= 1 as broadcastable and rechunk it
     # to a single block even when it carries extra empty chunks, e.g. chunks (1, 0) or (0, 0): blocks are duplicated / missing
     "argwhere:short-axis-split:mismatch-or-error": "argwhere/nonzero/flatnonzero on a length-1 axis chunked (1, 0): the index is returned twice",
     "isin:short-axis-split:mismatch-or-error": "isin: AxisError/ValueError in _concatenate2 when element or test_elements has a length<=1 axis with extra empty chunks",
